@@ -168,6 +168,30 @@ def attachments_checked(ctx):
               'the module comes from secNode.get_module (initialised)', 'the attached module is not obtained through get_module', f)
 
 
+@rule('C15.R3b', min_instances=1)
+def attachment_cache_has_one_writer(ctx):
+    """attachedModules is the cache of Attached.__get__: an entry means "this module came out of secNode.get_module(), i.e. is
+    fully initialised, exists and has the right class".  Nobody else may put a module object there - a pre-filled entry hands
+    an uninitialised module to its user (HasIO creating its communicator and registering it itself)"""
+    m = ctx.m
+    n = 0
+    for q, f in sorted(m.functions.items()):
+        if not f.module.name.startswith('frappy.') or f.module.name.startswith('frappy.gui'):
+            continue
+        for x in body_walk(f.node):
+            if isinstance(x, ast.Subscript) and isinstance(x.ctx, ast.Store) and isinstance(x.value, ast.Attribute) and x.value.attr == 'attachedModules':
+                n += 1
+                ctx.analysed(f)
+                ctx.check(q == 'frappy.modules.Attached.__get__', f'{q}:attachment cache written by Attached.__get__ only', x, 'the cache writer',
+                          f'`{src(x)}` puts a module into the attachment cache outside Attached.__get__: the cached object did not go through '
+                          'secNode.get_module() - its earlyInit / initModule have not run when the user of the attachment sees it', f)
+            if isinstance(x, ast.Call) and call_attr(x) in ('update', 'setdefault') and isinstance(x.func.value, ast.Attribute) and x.func.value.attr == 'attachedModules':
+                ctx.analysed(f)
+                ctx.bad(f'{q}:attachment cache written by Attached.__get__ only', x, f'`{src(x)}` fills the attachment cache outside Attached.__get__', f)
+    if not n:
+        raise AnchorMissing('no store into attachedModules found')
+
+
 @rule('C15.R4', min_instances=3)
 def poll_thread_startup(ctx):
     """writes -> initial reads -> first polls -> steady loop; start callback exactly once"""
@@ -237,6 +261,39 @@ def poll_thread_startup(ctx):
                   'on every feasible path the start callback was invoked exactly once',
                   f'paths reach the {what} with the start callback invoked {counts} times (2 = more than once): '
                   'the server either waits for the start time-out or the trigger is fired twice', pt)
+
+
+@rule('C15.R7', min_instances=2)
+def pending_start_events_are_kept_by_identity(ctx):
+    """Server._processCfg waits on ONE MultiEvent for all start triggers; several triggers may carry the same name (every
+    trigger a module asks for in startModule is called 'module <name>').  MultiEvent therefore has to keep the pending events
+    by identity (the event object itself is the member / key): kept by name, a second trigger of the same name replaces the
+    first, and when it fires the node counts as started while a poll thread is still in its first round"""
+    m = ctx.m
+    ci = m.classes.get('frappy.lib.multievent.MultiEvent')
+    if ci is None:
+        raise AnchorMissing('frappy.lib.multievent.MultiEvent not found')
+    n = 0
+    for name in ('clear_', 'set_'):
+        f = ci.methods.get(name)
+        if f is None:
+            raise AnchorMissing(f'MultiEvent.{name} not found')
+        ctx.analysed(f)
+        ev = f.node.args.args[1].arg
+        keys = []
+        for c in calls_in(f.node):
+            if call_attr(c) in ('add', 'discard', 'remove', 'pop', 'append') and src(c.func.value) == 'self.events' and c.args:
+                keys.append((c, c.args[0]))
+        for x in body_walk(f.node):
+            if isinstance(x, ast.Subscript) and src(x.value) == 'self.events':
+                keys.append((x, x.slice))
+        for site, k in keys:
+            n += 1
+            ctx.check(isinstance(k, ast.Name) and k.id == ev, f'{f.qualname}:pending events kept by identity', site, f'`{src(site)}`: the event object itself',
+                      f'`{src(site)}` files the pending event under `{src(k)}` instead of the event object: two triggers with the same name collapse into one '
+                      'entry - when the second fires, the multi-event is set although the first (the first poll round of a module) is still pending', f)
+    if n < 2:
+        raise AnchorMissing('updates of self.events in MultiEvent.clear_ / set_ not found')
 
 
 @rule('C15.R5', min_instances=3)
